@@ -14,7 +14,10 @@ def run(e):
     subprocess.run(['git','-C','/repo','worktree','add','-f','--detach',wt,'HEAD'],capture_output=True)
     try:
         a=subprocess.run(['git','-C',wt,'revert','-n','--no-edit',commit],capture_output=True,text=True)
-        if a.returncode!=0: return e,None,'revert failed: '+a.stderr.strip()[:120]
+        if a.returncode!=0:
+            # later fixes touch the same lines: fall back to the tree just before the fix
+            subprocess.run(['git','-C',wt,'revert','--abort'],capture_output=True)
+            subprocess.run(['git','-C',wt,'reset','--hard','-q',commit+'^'],capture_output=True)
         o=subprocess.run([f'{VERIF}/bin/rarecheck','-property',prop,'-repo',wt,'-no-evidence'],capture_output=True,text=True)
         rules=sorted({l.split()[1] for l in o.stdout.splitlines() if l.startswith('[violation]') or l.startswith('[undecided]')})
         return e,(o.returncode!=0,rules),''
